@@ -1,16 +1,21 @@
 #!/bin/bash
-# usage: tools/mutest.sh <patch.diff> <PROP> [tier]   — applies a mutant to /repo, runs the check, reverts.
+# usage: tools/mutest.sh <patch.diff> <PROP> [tier]
+# Applies a mutant to a scratch COPY of /repo's working tree and runs the check against that copy
+# (VERIF_REPO), with evidence, replays and build cache redirected. /repo itself is never written:
+# an interrupted run cannot leave a mutant behind in it (that happened once, see DESIGN.md §8).
 set -u
 P=$(readlink -f "$1"); PROP=$2; TIER=${3:-quick}
-cd /repo || exit 2
-if ! git diff --quiet; then echo "repo dirty"; exit 2; fi
-git apply "$P" || { echo "patch does not apply"; exit 2; }
+SRC=${VERIF_REPO:-/repo}
+W=/var/tmp/verif-mutest.$$
+trap 'rm -rf "$W"' EXIT
+mkdir -p "$W/repo" "$W/scratch" || exit 2
+rsync -a --exclude .git "$SRC"/ "$W/repo"/ || exit 2
+( cd "$W/repo" && git init -q . 2>/dev/null; git -C "$W/repo" apply "$P" ) || { echo "patch does not apply"; exit 2; }
 cd /verif
-VERIF_EVIDENCE_DIR=/var/tmp/verif-mutant-evidence ./verifctl check "$PROP" --tier "$TIER" > /tmp/mutest.$$.out 2>&1
+VERIF_REPO="$W/repo" VERIF_SCRATCH="$W/scratch" VERIF_EVIDENCE_DIR="$W/evidence" VERIF_REPLAY_DIR="$W/replays" \
+  ./verifctl check "$PROP" --tier "$TIER" > "$W/out" 2>&1
 rc=$?
-git -C /repo checkout -- . 
-grep -E "^VIOLATION|^KNOWN-FINDING|INTERNAL|oracle=" /tmp/mutest.$$.out | head -8
-tail -1 /tmp/mutest.$$.out
-rm -f /tmp/mutest.$$.out
+grep -E "^VIOLATION|^KNOWN-FINDING|INTERNAL|oracle=" "$W/out" | head -8
+tail -1 "$W/out"
 echo "mutest: $(basename $P) $PROP rc=$rc"
 exit $rc
